@@ -11,6 +11,8 @@ import Driver.Ops.C18
 import Driver.Ops.C19
 import Driver.Ops.C20
 import Driver.Ops.Std
+import Driver.Ops.C05
+import Driver.Ops.C14
 namespace ZVD
 
 def allOps : OpTable :=
@@ -26,6 +28,8 @@ def allOps : OpTable :=
   ++ opsC19
   ++ opsC20
   ++ opsStd
+  ++ opsC05
+  ++ opsC14
 
 def dispatch (op : String) (a : Args) : Except String String :=
   match allOps.find? (·.1 == op) with
